@@ -13,7 +13,7 @@ impl<A> SeqIt<A> {
     pub fn take(self, n: usize) -> (r: SeqIt<A>) ensures r@ == (if n <= self@.len() { self@.subrange(0, n as int) } else { self@ }) { unimplemented!() }
     #[verifier::external_body]
     pub fn map<B, F: FnMut(A) -> B>(self, f: F) -> (r: SeqIt<B>)
-        requires forall|a: A| call_requires(f, (a,)),
+        requires forall|i: int| 0 <= i < self@.len() ==> call_requires(f, (#[trigger] self@[i],)),
         ensures r@.len() == self@.len(), forall|i: int| 0 <= i < self@.len() ==> call_ensures(f, (self@[i],), #[trigger] r@[i])
     { unimplemented!() }
     #[verifier::external_body]
